@@ -57,19 +57,22 @@ PROPS["C20"] = {
 PROPS["C07"] = {
     "module": "GstProofs.Props.C07",
     "theorems": [
-        "GstProofs.C07.inv_sound", "GstProofs.C07.init", "GstProofs.C07.step_partial",
-        "GstProofs.C07.reach_partial", "GstProofs.C07.delete_frame", "GstProofs.C07.counts",
-        "GstProofs.Db.deleteByUid_inv",
+        "GstProofs.C07.inv_sound", "GstProofs.C07.init", "GstProofs.C07.step_full", "GstProofs.C07.reach_full",
+        "GstProofs.C07.reach_auto", "GstProofs.C07.step_partial", "GstProofs.C07.reach_partial",
+        "GstProofs.C07.delete_frame", "GstProofs.C07.counts",
+        "GstProofs.Db.deleteByUid_inv", "GstProofs.Db.setLocatorByUID_inv", "GstProofs.Db.setLocatorsByUIDs_inv",
+        "GstProofs.Db.switchLoc_inv", "GstProofs.Db.fixNewName_spec", "GstProofs.Db.fixNames_spec",
+        "GstProofs.Db.rename_inv", "GstProofs.Db.addColumns_inv", "GstProofs.Db.admissible_of_auto",
     ],
     "harnesses": ["vh_c07"],
     "level": "proof",
-    "technique": "Lean 4 state-machine model of the Db table with a decidable consistency invariant; invariant preservation proved by induction over histories for the deleting/sample/value/role-clearing operations; every generated history is replayed on the real Db/DbGrid and both the model state and the invariant (evaluated on the library's own state) are compared after each operation",
-    "level_text": "Partial proof: the invariant is proved for all histories of the covered operations (column deletion by uid/index/name/role, sample addition/deletion, value assignment, role clearing) and the decidable invariant is proved equivalent to its Prop form; role assignment, renaming and column addition are modelled and tied by correspondence, their invariant being decided per history by the same predicate run on the library's state (not yet a theorem).",
-    "level_note": "Trusted: Lean kernel + 3 standard axioms; the hand-written state-machine (validated op by op against the library on every run); names restricted to the grammar [a-z0-9.-] in the harness (names are regular expressions in the library: known finding F32).",
+    "technique": "Lean 4 state-machine model of the Db table (uid map, names, columns, role table) with a decidable consistency invariant proved equivalent to its Prop form; invariant preservation proved for every one of the 21 editing operations and, by induction over the history, for every reachable state (side condition: explicit role numbers leave no gap - its negation is known finding F4); every generated history is replayed on the real Db/DbGrid and both the model state and the invariant (evaluated on the library's own state) are compared after each operation",
+    "level_text": "Proof: from a consistent table every accepted editing operation (column addition with name de-duplication, deletion by uid/index/name/role, the four renamings, the five role assignments, role clearing and switching, sample addition/deletion, value assignment) yields a consistent table, for all states and arguments, hence all histories; the side condition on explicit role numbers is exactly the documented known finding F4 and is vacuous for automatic role numbers. The model is tied to Db/DbGrid op by op on generated histories (full observable state compared, and the decidable invariant run on the library's state).",
+    "level_note": "Trusted: Lean kernel + 3 standard axioms; the hand-written state-machine (validated op by op against the library on every run); names restricted to the grammar [a-z0-9.-] in the harness (names are regular expressions in the library: known finding F32); termination of the renaming loops is by fuel in the model (a fuel exhaustion would show as a model/library difference, never observed).",
     "rule": "random histories (1-40 operations among 20 public editing operations, ~10% invalid arguments: bad indices, dead uids, unknown names, duplicate names, UNKNOWN locator) on Db and DbGrid; after each operation the full observable state (names, uids, role table, values, counts, and every designation: uid->col, col->role, name->col) is compared with the model and checked by the invariant. distinct = distinct history text; trivial = histories of fewer than 3 operations",
     "trivial": lambda line: line.count(" ; ") < 3,
     "trusted_base": TB_COMMON,
-    "uncovered": ["invariant preservation of setLocator*/setName*/addColumnsByConstant/switchLocator is not yet a theorem (decided per history by the executable invariant)", "addColumns(tab), addSelection*, setColumn* (not modelled)"],
+    "uncovered": ["refinement of the ten observers to an abstract table (observers are compared with the library per history, not proved)", "addColumns(tab), addSelection*, setColumn* (not modelled)", "explicit role numbers beyond the next free one (known finding F4: the statement is false there, witness in the proof file)"],
     "assumptions": ["column names drawn from [a-z0-9.-]"],
 }
 
